@@ -1,2 +1,202 @@
-(* C13 — property theorems only. *)
+(* C13 — property theorems only.  Each is closed by [exact <lemma>] (or a short instantiation) and followed by
+   Print Assumptions.  hwf = every reference stored in a heap cell points to an allocated cell of the right kind;
+   swf = the stream record points to an indexer and a thermal condition; both are invariants of every reachable
+   state (copy_lemma, mut_local, link_lemma, unlink_lemma, flow_proxy_lemma re-establish them). *)
 From V Require Import Common.NumFacts C13.Model C13.Proofs.
+Local Open Scope nat_scope.
+
+(* a copy has the same flows, phase(s), T and P; the original is unchanged; nothing is shared *)
+Theorem C13_copy_equal : forall h s h2 c, hwf h -> swf h s -> copy h s = Ok (h2, c) ->
+  obs h2 c = obs h s /\ obs h2 s = obs h s.
+Proof. intros h s h2 c W S C. destruct (copy_lemma h s h2 c W S C) as (_ & _ & _ & A & B & _). auto. Qed.
+Print Assumptions C13_copy_equal.
+
+(* ... and for EVERY interleaved history of mutations (set a flow entry, T, P, phase, scale, empty, copy T/P or the
+   phase of any third stream) applied to the original (true) or to the copy (false), each step leaves the observations
+   of the other one unchanged, and the two still share no cell at the end *)
+Theorem C13_copy_disjoint : forall pk h s h2 c, hwf h -> swf h s -> copy h s = Ok (h2, c) ->
+  disjoint (footprint h2 s) (footprint h2 c) /\
+  forall hist, indep_trace pk h2 s c hist.
+Proof.
+  intros pk h s h2 c W S C.
+  destruct (copy_lemma h s h2 c W S C) as ((e & ->) & W2 & S2 & _ & _ & F & G).
+  assert (D : disjoint (footprint (h ++ e) s) (footprint (h ++ e) c)).
+  { intros r Hs Hc. rewrite F in Hs. pose proof (footprint_lt _ _ _ W S Hs). pose proof (G _ Hc). lia. }
+  split; auto. intros hist. apply indep_lemma; auto. eapply swf_ext; [apply ext_app|auto].
+Qed.
+Print Assumptions C13_copy_disjoint.
+
+(* the frame property behind it, for any two streams that share nothing: every mutator writes only cells of its
+   target (or fresh ones) *)
+Theorem C13_mutators_local : forall pk h s m h' s' e y, hwf h -> swf h s -> swf h y ->
+  apply_mut pk h s m = (h', s', e) -> disjoint (footprint h y) (footprint h s) ->
+  obs h' y = obs h y /\ footprint h' y = footprint h y /\ disjoint (footprint h' y) (footprint h' s') /\
+  hwf h' /\ swf h' s' /\ swf h' y.
+Proof.
+  intros pk h s m h' s' e y W S Y A D. pose proof (mut_local pk h s m h' s' e W S A) as L.
+  destruct (local_sep h s h' s' y W S Y L D) as (O & F & SY & D').
+  split; [auto|split; [auto|split; [auto|split; [apply L|split; [apply L|auto]]]]].
+Qed.
+Print Assumptions C13_mutators_local.
+
+(* proxy: the new object holds the same indexer and the same thermal condition: in every later heap both read the
+   same flows, phases, T and P and reach the same cells *)
+Theorem C13_proxy_all : forall h s h' p, proxy h s = Ok (h', p) ->
+  h' = h /\ imol p = imol s /\ tc p = tc s /\
+  (forall h2, footprint h2 p = footprint h2 s) /\ (forall h2, obs h2 p = obs h2 s).
+Proof. exact proxy_lemma. Qed.
+Print Assumptions C13_proxy_all.
+
+(* flow_proxy: exactly the flow data cells are shared; indexer, phase box and thermal condition are new;
+   values are those of the original *)
+Theorem C13_flow_proxy_flows_only : forall h s h2 p, hwf h -> swf h s -> flow_proxy h s = Ok (h2, p) ->
+  (forall r, shared h2 p s r <-> In r (data_cells h s)) /\
+  obs h2 p = obs h s /\ obs h2 s = obs h s /\ hwf h2 /\ swf h2 p /\ swf h2 s.
+Proof. exact flow_proxy_lemma. Qed.
+Print Assumptions C13_flow_proxy_flows_only.
+
+(* link_with(other, flow, phase, TP) between streams of the same class that share nothing: afterwards the shared
+   cells are exactly the selected ones (flow data / phase box / thermal condition), for all 8 flag subsets;
+   the other stream is unchanged *)
+Theorem C13_link_exact : forall h a b fl ph tp h' a' e, hwf h -> swf h a -> swf h b ->
+  disjoint (footprint h a) (footprint h b) -> is_multi h a = is_multi h b ->
+  link_with h a b fl ph tp = (h', a', e) ->
+  e = None /\ (forall r, shared h' a' b r <-> In r (selected h b fl ph tp)) /\
+  obs h' b = obs h b /\ hwf h' /\ swf h' a' /\ swf h' b.
+Proof. exact link_lemma. Qed.
+Print Assumptions C13_link_exact.
+
+(* unlink: whatever a shared with a stream b holding ANOTHER indexer object (links, flow proxies, any history of
+   them), afterwards they share nothing and both keep their values *)
+Theorem C13_unlink_sep_partial : forall h a b h' a', hwf h -> swf h a -> swf h b -> imol a <> imol b ->
+  unlink h a = (h', a', None) ->
+  disjoint (footprint h' a') (footprint h' b) /\ obs h' a' = obs h a /\ obs h' b = obs h b /\
+  hwf h' /\ swf h' a' /\ swf h' b.
+Proof. exact unlink_lemma. Qed.
+Print Assumptions C13_unlink_sep_partial.
+
+(* the full statement: after unlink, stream i shares nothing with ANY other stream object of the store *)
+Definition C13_unlink_sep_statement : Prop :=
+  forall pk st i j st' a b, hwf (hp st) -> Forall (swf (hp st)) (ss st) -> i <> j ->
+    step pk st (OUnlink i) = (st', None) -> nth_error (ss st') i = Some a -> nth_error (ss st') j = Some b ->
+    disjoint (footprint (hp st') a) (footprint (hp st') b).
+
+(* ... is refuted by the code as it is: a proxy holds the same indexer OBJECT, and unlink replaces the data and the
+   phase box inside that object, so stream and proxy keep sharing the flows (and the phase) *)
+Definition wit_ops : list op :=
+  [ONewS (IdName 1) 0 3 [1%Q; 0%Q; 2%Q] (300%Q) (101325%Q) 0%Q []; OProxy 0].
+Definition wit_state : state := fst (run PK init wit_ops).
+Definition wit_after : state := fst (step PK wit_state (OUnlink 0)).
+Definition dflt : stream := mkstream 0 0 0%Q [] IdNone 0.
+Theorem C13_unlink_sep_refuted : ~ C13_unlink_sep_statement.
+Proof.
+  intros H.
+  assert (W : hwf (hp wit_state)) by (apply hwfb_ok; vm_compute; reflexivity).
+  assert (F : Forall (swf (hp wit_state)) (ss wit_state)).
+  { apply Forall_forall. intros x Hx. vm_compute in Hx. destruct Hx as [<-|[<-|[]]]; apply swfb_ok; vm_compute; reflexivity. }
+  assert (E : step PK wit_state (OUnlink 0) = (wit_after, None)) by (vm_compute; reflexivity).
+  assert (N : 0 <> 1) by discriminate.
+  assert (A : nth_error (ss wit_after) 0 = Some (nth 0 (ss wit_after) dflt)) by (vm_compute; reflexivity).
+  assert (B : nth_error (ss wit_after) 1 = Some (nth 1 (ss wit_after) dflt)) by (vm_compute; reflexivity).
+  pose proof (H PK wit_state 0 1 wit_after _ _ W F N E A B) as X.
+  apply (X 3); vm_compute; auto.
+Qed.
+Print Assumptions C13_unlink_sep_refuted.
+
+(* copy_like, full statement: for every kind x kind x package combination (streams sharing nothing, lower-case
+   phases, every chemical with a non-zero source flow present in the target package), afterwards the flow of every
+   chemical in every phase, T and P are those of the source *)
+Definition C13_copy_like_eq_statement : Prop :=
+  forall pk h a b h' a' e, hwf h -> swf h a -> swf h b -> disjoint (footprint h a) (footprint h b) ->
+    plain h a -> plain h b ->
+    (forall p c, ~ (phase_flow pk h b p c == 0)%Q -> In c (chems pk (stream_pkg h a))) ->
+    copy_like pk h a b = (h', a', e) ->
+    e = None /\ (forall p c, (phase_flow pk h' a' p c == phase_flow pk h b p c)%Q) /\
+    rdtc h' (tc a') = rdtc h (tc b) /\ obs h' b = obs h b.
+
+(* proved part: Stream <- Stream, same or different property package (the chemical remapping by CAS).  The
+   other three kind combinations (MultiStream source or target, one-phase MultiStream, phase expansion) are
+   transcribed in Model.v and tied to the implementation by the correspondence check and the oracle, not proved. *)
+Theorem C13_copy_like_eq_partial : forall pk h a b ka pba da kb pbb db h' a' e,
+  hwf h -> swf h a -> swf h b -> disjoint (footprint h a) (footprint h b) ->
+  nth_error h (imol a) = Some (CIdxC ka pba da) -> nth_error h (imol b) = Some (CIdxC kb pbb db) ->
+  valid_phase (rdphase h pbb) = true ->
+  (ka <> kb -> missing (chems pk ka) (chems pk kb) (rdvec h db) = false) ->
+  copy_like pk h a b = (h', a', e) ->
+  e = None /\ a' = a /\ rdphase h' pba = rdphase h pbb /\ rdtc h' (tc a) = rdtc h (tc b) /\
+  (forall c, (flow_of (chems pk ka) (rdvec h' da) c == flow_of (chems pk kb) (rdvec h db) c)%Q) /\
+  obs h' b = obs h b.
+Proof. exact copy_like_ss. Qed.
+Print Assumptions C13_copy_like_eq_partial.
+
+(* reduce (= from_data o __reduce__ through __init__), full statement: the observable state incl. price,
+   characterization factors and a given ID survives (a one-phase MultiStream comes back as a Stream) *)
+Definition C13_reduce_roundtrip_statement : Prop :=
+  forall pk h s h' n, hwf h -> swf h s -> plain h s -> sid_ s <> IdNone -> reduce pk h s = Ok (h', n) ->
+    obs_plus h' n = (let '(m, phs, rows, T, P, pr, c, i) := obs_plus h s in
+                     (match phs with [_] => false | _ => m end, phs, rows, T, P, pr, c, i)).
+
+(* proved part: price, characterization factors, property package and a given ID survive; an empty ID becomes an
+   automatic one.  (Flows, phases, T, P of the reduced stream are tied by the correspondence check, which also runs
+   the real pickle.)  With the constructor as it was before pending fix C13_1 this theorem is false. *)
+Theorem C13_reduce_roundtrip_partial : forall pk h s h' n, reduce pk h s = Ok (h', n) ->
+  price n = price s /\ cf n = cf s /\ thermo n = thermo s /\
+  sid_ n = match sid_ s with IdNone => IdAuto | x => x end.
+Proof. exact reduce_fields. Qed.
+Print Assumptions C13_reduce_roundtrip_partial.
+
+(* ---------- non-vacuity: the hypotheses are met by states reached through the constructors ---------- *)
+Definition ex_ops : list op :=
+  [ONewS (IdName 1) 0 3 [1%Q; 0%Q; 2%Q] (300%Q) (101325%Q) (1 # 2)%Q [(2, (3 # 2)%Q)];
+   ONewM (IdName 2) 0 [2; 3] [(2, [0%Q; 4%Q; 0%Q]); (3, [(1 # 2)%Q; 0%Q; 0%Q])] (350%Q) (200000%Q) 0%Q [];
+   ONewS (IdName 3) 0 2 [0%Q; 3%Q; 0%Q] (310%Q) (101325%Q) 0%Q [];
+   ONewM (IdName 4) 0 [2; 3] [(3, [1%Q; 1%Q; 0%Q])] (320%Q) (101325%Q) 0%Q []].
+Definition ex_state : state := fst (run PK init ex_ops).
+Definition ex_s (i : nat) : stream := nth i (ss ex_state) (mkstream 0 0 0%Q [] IdNone 0).
+
+Example C13_ex_wellformed : hwf (hp ex_state) /\ Forall (swf (hp ex_state)) (ss ex_state).
+Proof.
+  split; [apply hwfb_ok; vm_compute; reflexivity|].
+  apply Forall_forall. intros x Hx. vm_compute in Hx.
+  destruct Hx as [<-|[<-|[<-|[<-|[]]]]]; apply swfb_ok; vm_compute; reflexivity.
+Qed.
+
+Example C13_ex_copy :
+  (exists h2 c, copy (hp ex_state) (ex_s 0) = Ok (h2, c)) /\ (exists h3 d, copy (hp ex_state) (ex_s 1) = Ok (h3, d)) /\
+  (exists h4 p, flow_proxy (hp ex_state) (ex_s 0) = Ok (h4, p)) /\ (exists h5 p, flow_proxy (hp ex_state) (ex_s 1) = Ok (h5, p)).
+Proof. repeat split; eexists; eexists; vm_compute; reflexivity. Qed.
+
+Example C13_ex_link : disjoint (footprint (hp ex_state) (ex_s 0)) (footprint (hp ex_state) (ex_s 2)) /\
+  is_multi (hp ex_state) (ex_s 0) = is_multi (hp ex_state) (ex_s 2) /\
+  disjoint (footprint (hp ex_state) (ex_s 1)) (footprint (hp ex_state) (ex_s 3)) /\
+  is_multi (hp ex_state) (ex_s 1) = is_multi (hp ex_state) (ex_s 3) /\
+  exists h' a', unlink (hp ex_state) (ex_s 0) = (h', a', None).
+Proof.
+  split; [apply disjointb_ok; vm_compute; reflexivity|]. split; [vm_compute; reflexivity|].
+  split; [apply disjointb_ok; vm_compute; reflexivity|]. split; [vm_compute; reflexivity|].
+  eexists; eexists; vm_compute; reflexivity.
+Qed.
+
+(* a mutation through a flow proxy IS visible in the original (the sharing theorems are not about an empty set) *)
+Example C13_ex_flow_proxy_visible :
+  let '(st1, _) := run PK ex_state [OFlowProxy 0; OSetFlow 4 0 1 (7%Q)] in
+  o_rows (observe (hp st1) (nth 0 (ss st1) (ex_s 0)) []) = [[1%Q; 7%Q; 2%Q]].
+Proof. vm_compute. reflexivity. Qed.
+
+Example C13_ex_copy_like : valid_phase (rdphase (hp ex_state) 5) = true /\
+  disjoint (footprint (hp ex_state) (ex_s 0)) (footprint (hp ex_state) (ex_s 2)) /\
+  exists h' a', copy_like PK (hp ex_state) (ex_s 0) (ex_s 2) = (h', a', None).
+Proof.
+  split; [vm_compute; reflexivity|]. split; [apply disjointb_ok; vm_compute; reflexivity|].
+  eexists; eexists; vm_compute; reflexivity.
+Qed.
+
+(* other-package copy_like and reduce on reachable states *)
+Example C13_ex_other_package_and_reduce :
+  let '(st1, es) := run PK ex_state [ONewS (IdName 5) 1 3 [0%Q; 0%Q; 5%Q; 0%Q] (300%Q) (101325%Q) 0%Q [];
+                                      OCopyLike 4 0; OReduce 0; OReduce 1] in
+  es = [None; None; None; None] /\
+  o_rows (observe (hp st1) (nth 4 (ss st1) dflt) []) = [[2%Q; 1%Q; 0%Q; 0%Q]] /\
+  obs_plus (hp st1) (nth 5 (ss st1) dflt) = obs_plus (hp st1) (nth 0 (ss st1) dflt) /\
+  obs_plus (hp st1) (nth 6 (ss st1) dflt) = obs_plus (hp st1) (nth 1 (ss st1) dflt).
+Proof. vm_compute. repeat split; reflexivity. Qed.
